@@ -445,7 +445,7 @@ func (s *Session) Run() (err error) {
 
 			s.processIncSeq(incomingLogon)
 		case SuccessfulLogged:
-			s.sendWithErrorCheck(s.MakeReject(s.SessionErrorCodes.Other, 0, incomingLogon.HeaderBuilder().MsgSeqNum()))
+			s.RejectMessage(data)
 		}
 
 		return true
